@@ -4,9 +4,9 @@
      - exp : exported evaluation, pruned channels are physically removed (weights sliced).
    Channel values live in an abstract carrier S (think S = Z -> Z signals, equality pointwise).
    Definitions only, no lemmas. *)
-From Coq Require Import List Arith Bool.
+From Coq Require Import ZArith List Arith Bool.
 Import ListNotations.
-Require Import Plinio.Model.Conv.
+Require Import Plinio.Model.Masks Plinio.Model.Conv.
 
 Section Net.
 Variable S : Type.
@@ -143,3 +143,165 @@ Fixpoint wf_acc (n : nat) (al : list (list bool)) (net : list node) : Prop :=
 
 Definition wf (n : nat) (net : list node) : Prop := wf_acc n [] net.
 End Net.
+
+
+(* ================================================================ networks of CONCRETE PIT layers (Model/Conv.v)
+   Channel values are functions of a multi-index (time / (row, column) / nothing) into the carrier R:
+   a 1-D signal reads index [t], a 2-D map [h; v], a flattened feature []. *)
+Section Concrete.
+Variable R : Type.
+Variables (r0 r1 : R) (radd rmul : R -> R -> R).
+
+Definition SR := list Z -> R.
+Definition eqR (f g : SR) : Prop := forall i, f i = g i.
+Definition zeroR : SR := fun _ => r0.
+Definition addR (f g : SR) : SR := fun i => radd (f i) (g i).
+Definition as1 (s : SR) : Z -> R := fun t => s [t].
+Definition of1 (f : Z -> R) : SR := fun i => f (nth 0 i 0%Z).
+Definition as2 (s : SR) : Z -> Z -> R := fun h v => s [h; v].
+Definition of2 (f : Z -> Z -> R) : SR := fun i => f (nth 0 i 0%Z) (nth 1 i 0%Z).
+Definition as0 (s : SR) : R := s [].
+Definition of0 (r : R) : SR := fun _ => r.
+
+(* a searchable layer with its search state: tm = binarized time mask, (K', sp) = exported kernel size and
+   dilation factor (kernel_size_opt, dilation_opt / d); well-formedness demands kept_lags K tm = export_lags K' sp,
+   which Masks.kept_taps_progression gives for every real (beta, gamma) and frozen_lags for frozen maskers *)
+Inductive clayer :=
+| L1 (fold dw : bool) (w : w3 R) (b : option (list R)) (bn : option (list R * list R)) (cin K d s : nat) (tm : list bool) (K' sp : nat)
+| L2 (fold dw : bool) (w : w4 R) (b : option (list R)) (bn : option (list R * list R)) (cin kh kw d s ph pw : nat)
+| L0 (fold : bool) (w : list (list R)) (b : option (list R)) (bn : option (list R * list R)) (cin : nat).
+
+Inductive cnode :=
+| CInput (c : nat)
+| CLayer (src : nat) (l : clayer) (m : list bool)        (* m = binarized output-feature mask *)
+| CChan (src : nat) (f : SR -> SR)
+| CExpand (src mult : nat) (f : nat -> SR -> SR)
+| CAdd (a b : nat)
+| CCat (srcs : list nat).
+
+Definition cout_of (l : clayer) : nat :=
+  match l with L1 _ _ w _ _ _ _ _ _ _ _ _ => length w | L2 _ _ w _ _ _ _ _ _ _ _ _ => length w | L0 _ w _ _ _ => length w end.
+
+(* ---- what the CODE computes (Model/Conv.v): eval-mode forward of the PIT layer (repaired: maskbias = true) ... *)
+Definition clayer_pit (l : clayer) (m : list bool) (xs : list SR) : list SR :=
+  match l with
+  | L1 fold dw w b bn cin K d s tm _ _ =>
+      map (fun co => of1 (fun t => pit_conv1d_at r0 r1 radd rmul true fold dw w b bn cin K (Z.of_nat d) (Z.of_nat s) m tm
+                                     (fun ci => padl ((K - 1) * d) (as1 (nth ci xs zeroR))) co t)) (seq 0 (length w))
+  | L2 fold dw w b bn cin kh kw d s ph pw =>
+      map (fun co => of2 (fun h v => pit_conv2d_at r0 r1 radd rmul true fold dw w b bn cin kh kw (Z.of_nat d) (Z.of_nat s) (Z.of_nat ph) (Z.of_nat pw) m
+                                     (fun ci => as2 (nth ci xs zeroR)) co h v)) (seq 0 (length w))
+  | L0 fold w b bn cin =>
+      map (fun co => of0 (pit_linear_at r0 r1 radd rmul true fold w b bn cin m (fun ci => as0 (nth ci xs zeroR)) co)) (seq 0 (length w))
+  end.
+(* ... and the exported plain layer (sliced parameters, new kernel size / dilation / padding, re-created BN) on the exported input *)
+Definition clayer_exp (l : clayer) (m min : list bool) (xs' : list SR) : list SR :=
+  match l with
+  | L1 fold dw w b bn cin K d s tm K' sp =>
+      map (fun i => of1 (fun t => bn_at r0 radd rmul (if fold then None else slice_bn m bn) i
+                         (conv1d_at r0 radd rmul dw (export_w3 dw m min tm w) (export_bias m b) (count_true min) K' (Z.of_nat (sp * d)) (Z.of_nat s)
+                            (fun j => padl ((K' - 1) * (sp * d)) (as1 (nth j xs' zeroR))) i t))) (seq 0 (count_true m))
+  | L2 fold dw w b bn cin kh kw d s ph pw =>
+      map (fun i => of2 (fun h v => bn_at r0 radd rmul (if fold then None else slice_bn m bn) i
+                         (conv2d_at r0 radd rmul dw (export_w4 dw m min w) (export_bias m b) (count_true min) kh kw (Z.of_nat d) (Z.of_nat s) (Z.of_nat ph) (Z.of_nat pw)
+                            (fun j => as2 (nth j xs' zeroR)) i h v))) (seq 0 (count_true m))
+  | L0 fold w b bn cin =>
+      map (fun i => of0 (bn_at r0 radd rmul (if fold then None else slice_bn m bn) i
+                         (linear_at r0 radd rmul (export_w2 m min w) (export_bias m b) (count_true min) (fun j => as0 (nth j xs' zeroR)) i))) (seq 0 (count_true m))
+  end.
+
+Definition calive_node (al : list (list bool)) (nd : cnode) : list bool :=
+  match nd with
+  | CInput c => repeat true c
+  | CLayer _ _ m => m
+  | CChan src _ => nth src al []
+  | CExpand src mult _ => flat_map (fun b => repeat b mult) (nth src al [])
+  | CAdd a _ => nth a al []
+  | CCat srcs => flat_map (fun s => nth s al []) srcs
+  end.
+Definition cpit_node (x : list SR) (acc : list (list SR)) (nd : cnode) : list SR :=
+  match nd with
+  | CInput _ => x
+  | CLayer src l m => clayer_pit l m (nth src acc [])
+  | CChan src f => map f (nth src acc [])
+  | CExpand src mult f => flat_map (expand1 SR mult f) (nth src acc [])
+  | CAdd a b => zipadd SR addR (nth a acc []) (nth b acc [])
+  | CCat srcs => flat_map (fun s => nth s acc []) srcs
+  end.
+Definition cexp_node (x : list SR) (al : list (list bool)) (acc' : list (list SR)) (nd : cnode) : list SR :=
+  match nd with
+  | CInput _ => x
+  | CLayer src l m => clayer_exp l m (nth src al []) (nth src acc' [])
+  | CChan src f => map f (nth src acc' [])
+  | CExpand src mult f => flat_map (expand1 SR mult f) (nth src acc' [])
+  | CAdd a b => zipadd SR addR (nth a acc' []) (nth b acc' [])
+  | CCat srcs => flat_map (fun s => nth s acc' []) srcs
+  end.
+Fixpoint calive_acc (al : list (list bool)) (net : list cnode) : list (list bool) :=
+  match net with [] => al | nd :: rest => calive_acc (al ++ [calive_node al nd]) rest end.
+Fixpoint cpit_acc (x : list SR) (acc : list (list SR)) (net : list cnode) : list (list SR) :=
+  match net with [] => acc | nd :: rest => cpit_acc x (acc ++ [cpit_node x acc nd]) rest end.
+Fixpoint cexp_acc (x : list SR) (al : list (list bool)) (acc' : list (list SR)) (net : list cnode) : list (list SR) :=
+  match net with [] => acc' | nd :: rest => cexp_acc x (al ++ [calive_node al nd]) (acc' ++ [cexp_node x al acc' nd]) rest end.
+Definition calive_net (net : list cnode) := calive_acc [] net.
+Definition ceval_pit (net : list cnode) (x : list SR) := cpit_acc x [] net.       (* the searched network, eval mode *)
+Definition ceval_exp (net : list cnode) (x : list SR) := cexp_acc x [] [] net.    (* the exported network *)
+
+(* shapes of the parameter tensors *)
+Definition cshape3 (w : w3 R) (cout cin K : nat) : Prop :=
+  length w = cout /\ (forall co, co < cout -> length (nth co w []) = cin) /\ (forall co ci, co < cout -> ci < cin -> length (w3at w co ci) = K).
+Definition cshape2 {A} (w : list (list A)) (cout cin : nat) : Prop := length w = cout /\ (forall co, co < cout -> length (nth co w []) = cin).
+Definition cbias_ok (b : option (list R)) (cout : nat) : Prop := forall bl, b = Some bl -> length bl = cout.
+Definition cbn_ok (bn : option (list R * list R)) (cout : nat) : Prop := forall a sh, bn = Some (a, sh) -> length a = cout /\ length sh = cout.
+
+Definition respectsR (f : SR -> SR) : Prop := forall s s', eqR s s' -> eqR (f s) (f s').
+Definition clayer_wf (l : clayer) (m min : list bool) : Prop :=
+  match l with
+  | L1 fold dw w b bn cin K d s tm K' sp =>
+      cshape3 w (length m) (if dw then 1 else cin) K /\ cbias_ok b (length m) /\ cbn_ok bn (length m) /\
+      length tm = K /\ kept_lags K tm = export_lags K' sp /\ (if dw then m = min else length min = cin)
+  | L2 fold dw w b bn cin kh kw d s ph pw =>
+      cshape2 w (length m) (if dw then 1 else cin) /\ cbias_ok b (length m) /\ cbn_ok bn (length m) /\ (if dw then m = min else length min = cin)
+  | L0 fold w b bn cin =>
+      cshape2 w (length m) cin /\ cbias_ok b (length m) /\ cbn_ok bn (length m) /\ length min = cin
+  end.
+Definition cwf_node (n : nat) (al : list (list bool)) (nd : cnode) : Prop :=
+  match nd with
+  | CInput c => c = n
+  | CLayer src l m => src < length al /\ clayer_wf l m (nth src al [])
+  | CChan src f => src < length al /\ eqR (f zeroR) zeroR /\ respectsR f
+  | CExpand src mult f => src < length al /\ (forall p, eqR (f p zeroR) zeroR) /\ (forall p, respectsR (f p))
+  | CAdd a b => a < length al /\ b < length al /\ nth a al [] = nth b al []
+  | CCat srcs => Forall (fun s => s < length al) srcs
+  end.
+Fixpoint cwf_acc (n : nat) (al : list (list bool)) (net : list cnode) : Prop :=
+  match net with [] => True | nd :: rest => cwf_node n al nd /\ cwf_acc n (al ++ [calive_node al nd]) rest end.
+Definition cwf (n : nat) (net : list cnode) : Prop := cwf_acc n [] net.
+
+(* ---- the same layers as abstract NFull / NDw nodes: per-channel operators *)
+Definition bconst (b : option (list R)) (co : nat) : SR := of0 (match b with Some bl => nth co bl r0 | None => r0 end).
+Definition postbn (bn : option (list R * list R)) (co : nat) (s : SR) : SR := fun i => bn_at r0 radd rmul bn co (s i).
+Definition T1 (w : w3 R) (tm : list bool) (K d s : nat) (co wi : nat) (sg : SR) : SR :=
+  of1 (fun t => taps r0 radd rmul (w3at (mask_w3_time r0 r1 rmul tm w) co wi) K (Z.of_nat d) (padl ((K - 1) * d) (as1 sg)) (Z.of_nat s * t)%Z).
+Definition T2 (w : w4 R) (kh kw d s ph pw : nat) (co wi : nat) (sg : SR) : SR :=
+  of2 (fun h v => taps2 r0 radd rmul (w4at w co wi) kh kw (Z.of_nat d) (as2 sg) (Z.of_nat s * h - Z.of_nat ph)%Z (Z.of_nat s * v - Z.of_nat pw)%Z).
+Definition T0 (w : list (list R)) (co ci : nat) (sg : SR) : SR := of0 (rmul (nth ci (nth co w []) r0) (as0 sg)).
+
+Definition node_of (nd : cnode) : node SR :=
+  match nd with
+  | CInput c => NInput SR c
+  | CLayer src (L1 fold dw w b bn cin K d s tm K' sp) m =>
+      let post := postbn (if fold then None else bn) in
+      if dw then NDw SR src (length m) (fun co => T1 w tm K d s co 0) (bconst b) post m
+      else NFull SR src cin (length m) (T1 w tm K d s) (bconst b) post m
+  | CLayer src (L2 fold dw w b bn cin kh kw d s ph pw) m =>
+      let post := postbn (if fold then None else bn) in
+      if dw then NDw SR src (length m) (fun co => T2 w kh kw d s ph pw co 0) (bconst b) post m
+      else NFull SR src cin (length m) (T2 w kh kw d s ph pw) (bconst b) post m
+  | CLayer src (L0 fold w b bn cin) m => NFull SR src cin (length m) (T0 w) (bconst b) (postbn (if fold then None else bn)) m
+  | CChan src f => NChan SR src f
+  | CExpand src mult f => NExpand SR src mult f
+  | CAdd a b => NAdd SR a b
+  | CCat srcs => NCat SR srcs
+  end.
+End Concrete.
